@@ -63,6 +63,19 @@ Commit == /\ Ev("Commit")
           /\ stats' = [stats EXCEPT !.commits = @ + 1]
           /\ UNCHANGED <<ref, cfgref, bad>>
 
+\* Conformance with MwLock.tla (a drift report, never a verdict): the gates a call went through, in order, must be the lock program of
+\* its method - ONE read section for a request and for Config(), ONE write section for an accepted Reconfigure and for SetDebug, none
+\* for a rejected Reconfigure - and everything that touches the outside (w.Header(), WriteHeader, Write, the wrapped handler) comes after
+\* the section, with no lock operation or atomic in between (MwLock!LockFreeOutside).
+Outside == {"Header", "WriteHeader", "Write", "Handler"}
+LockProgram(e) == CASE e.kind \in {"request", "config"} -> <<"RLock:pre", "RUnlock:post">>
+                    [] e.kind = "reconf" /\ e.err -> <<>>
+                    [] OTHER -> <<"Lock:pre", "Unlock:post">>
+FollowsLockProgram(e) ==
+  LET p == LockProgram(e)  g == e.gl IN
+  /\ Len(g) >= Len(p) /\ SubSeq(g, 1, Len(p)) = p
+  /\ \A i \in (Len(p) + 1)..Len(g) : g[i] \in Outside /\ e.kind = "request"
+
 End ==
   /\ Ev("End")
   /\ LET e == Trace[l]  w == window[e.t] IN
@@ -81,7 +94,9 @@ End ==
             THEN bad \cup {<<l, "the call returned without changing anything although it is not a no-op in any state that was current during the call">>}
           ELSE bad
      /\ stats' = [stats EXCEPT !.requests = @ + (IF e.kind = "request" THEN 1 ELSE 0),
-                               !.raced = @ + (IF e.kind = "request" /\ Cardinality(w) > 1 THEN 1 ELSE 0)]
+                               !.raced = @ + (IF e.kind = "request" /\ Cardinality(w) > 1 THEN 1 ELSE 0),
+                               !.lockchecked = @ + (IF e.lockchk THEN 1 ELSE 0),
+                               !.lockdrift = IF e.lockchk /\ ~FollowsLockProgram(e) /\ Cardinality(@) < 20 THEN @ \cup {l} ELSE @]
      /\ window' = Del(window, e.t)
   /\ UNCHANGED <<st, ref, cfgref>>
 
@@ -95,7 +110,7 @@ Panic == /\ Ev("Panic")
          /\ UNCHANGED <<st, window, ref, cfgref, stats>>
 
 Init == l = 1 /\ st = ZeroState /\ window = EmptyFn /\ ref = EmptyFn /\ cfgref = EmptyFn /\ bad = {}
-        /\ stats = [schedules |-> 0, commits |-> 0, requests |-> 0, raced |-> 0]
+        /\ stats = [schedules |-> 0, commits |-> 0, requests |-> 0, raced |-> 0, lockchecked |-> 0, lockdrift |-> {}]
 Next == Ref \/ CfgRef \/ Sched \/ Begin \/ Commit \/ End \/ Blocked \/ Panic
 Spec == Init /\ [][Next]_vars
 
